@@ -3,6 +3,8 @@
 package gldap
 
 import (
+	"crypto/tls"
+	"crypto/x509"
 	"fmt"
 	"sync"
 	"time"
@@ -537,3 +539,85 @@ func H_C17_ready() {
 		vReach("run ok")
 	}
 }
+
+func init() { vReg("H_C18_tls", H_C18_tls) }
+
+const (
+	cliGood      = iota // completes a handshake satisfying the config
+	cliFails            // plaintext LDAP / arbitrary bytes / no or wrong certificate: the handshake fails
+	cliAbandons         // connects and never sends a ClientHello
+	cliKinds
+)
+
+// C18: with a TLS configuration only clients inside a completed TLS session
+// satisfying it reach a handler (gldap-owned obligations O1-O3).
+func H_C18_tls() {
+	vSchedFork(1)
+	mtls := vBool("requireClientCert")
+	cfg := vTLSConfig()
+	if mtls {
+		cfg.ClientAuth = tls.RequireAndVerifyClientCert
+		cfg.ClientCAs = x509.NewCertPool()
+	}
+	withTLS := vBool("withTLSConfig")
+	v := vNewSrv(WithReadTimeout(time.Second))
+	var mu sync.Mutex
+	handled := map[string]int{}
+	hf := func(w *ResponseWriter, r *Request) {
+		mu.Lock()
+		handled[fmt.Sprint(r.ConnectionID())]++
+		mu.Unlock()
+		if withTLS {
+			got := vTLSConfigOf(r.conn.netConn)
+			vAssertE(got != nil, "a handler runs only on a TLS connection when a TLS configuration is given")
+			if got != nil {
+				vAssertE(got == cfg || (got.ClientAuth == cfg.ClientAuth && got.ClientCAs == cfg.ClientCAs && got.MinVersion == cfg.MinVersion &&
+					got.InsecureSkipVerify == cfg.InsecureSkipVerify && len(got.Certificates) == len(cfg.Certificates) && got.GetConfigForClient == nil && got.VerifyPeerCertificate == nil),
+					"the connection's TLS configuration is the one given to Run (or a copy with the same security-relevant fields)")
+			}
+			vAssertE(vConnLayer(r.conn.reader) == "reader(tls(raw("+vConnName(r)+")))", "requests are read through the TLS connection over the accepted socket")
+			vAssertE(vConnLayer(w.writer) == "writer(tls(raw("+vConnName(r)+")))", "responses are written through the TLS connection")
+		}
+		_ = w.Write(r.NewResponse(WithResponseCode(ResultSuccess)))
+	}
+	vAssume(v.mux.Delete(hf) == nil && v.mux.DefaultRoute(hf) == nil && v.mux.Bind(hf) == nil)
+	// client 1 behaves in a symbolic way, client 2 conforms
+	behaviour := vLen("client1", cliKinds-1)
+	c1, c2 := vNetConn("c1"), vNetConn("c2")
+	switch behaviour {
+	case cliGood:
+		vConnSet(c1, "tlsOK", true)
+	case cliFails:
+		vConnSet(c1, "tlsOK", false)
+	case cliAbandons:
+		vConnSet(c1, "tlsPending", true)
+	}
+	vConnFeed(c1, vWire(refEnvelope(1, refDeleteOp(), nil))) // what the client would like to get served
+	vConnFeed(c1, vWire(refEnvelope(2, refApp(ApplicationBindRequest, refInt(3), refOctet("cn=u"), refCtxPrim(0, "pw")), nil)))
+	vConnSet(c2, "tlsOK", true)
+	vConnFeed(c2, vWire(refEnvelope(1, refDeleteOp(), nil)))
+	vEnvAccept(c1)
+	vEnvAccept(c2)
+	var runOpts []Option
+	if withTLS {
+		runOpts = append(runOpts, WithTLSConfig(cfg))
+	}
+	v.goRun(runOpts...)
+	vQuiesce()
+	mu.Lock()
+	if withTLS && behaviour != cliGood {
+		vAssertE(handled["1"] == 0, "no handler runs for a client that did not complete a satisfying handshake")
+		vAssertE(vConnWrites(c1) == 0, "nothing is answered outside a TLS session")
+	} else {
+		vAssertE(handled["1"] == 2, "a conforming client is served")
+	}
+	vAssertE(handled["2"] == 1, "a conforming client on another connection is served regardless")
+	mu.Unlock()
+	vAssertE(vConnClosed(c1) == 1, "the attempt ends (only) its own connection")
+	v.goStop()
+	vQuiesce()
+	vAssertE(v.ranRun && v.runErr == nil && v.ranStop, "server stops normally")
+	vReach("tls")
+}
+
+func vConnName(r *Request) string { return fmt.Sprintf("c%d", r.ConnectionID()) }
